@@ -48,5 +48,13 @@ def opRoots : Handler := fun args impl =>
     | _, _ => bad
   | _ => bad
 
-def ops : List (String × Handler) := [("pm.roots", opRoots)]
+/-- the machine-integer instantiations `find_linear_factors::<i128>` / `::<i64>` (same generic code,
+other arithmetic and another random sampler: no history to replay) are judged by the oracle only -/
+def opRootsMachine : Handler := fun args impl =>
+  match args with
+  | [fs, ps, planted] => ("-", (opRoots [fs, ps, planted, "_"] impl).2)
+  | _ => bad
+
+def ops : List (String × Handler) :=
+  [("pm.roots", opRoots), ("pm.roots.i128", opRootsMachine), ("pm.roots.i64", opRootsMachine)]
 end NTV.Driver.C12
